@@ -65,6 +65,28 @@ class Reach(object):
     def report(self):
         return {n: [len(self.lines[n]), self.total[n]] for n in self.lines}
 
+    def watched(self, watch):
+        """watch: {anchor name: regex}.  -> {anchor name: {'want': [line numbers whose source matches], 'seen': [those executed]}}
+        (the deciding statements of a function -- e.g. every place a switch is turned back on -- must be executed by the workload)"""
+        import inspect, re
+        out = {}
+        by_name = {}
+        for code, name in self.codes.items():
+            by_name.setdefault(name, []).append(code)
+        for name, rx in watch.items():
+            want = set()
+            for code in by_name.get(name, []):
+                try:
+                    src, first = inspect.getsourcelines(code)
+                except Exception:
+                    continue
+                present = set(l for (_, _, l) in code.co_lines() if l is not None)
+                for i, line in enumerate(src):
+                    if re.search(rx, line) and (first + i) in present:
+                        want.add(first + i)
+            out[name] = {'want': sorted(want), 'seen': sorted(want & self.lines.get(name, set()))}
+        return out
+
 
 class StepBound(Exception):
     pass
